@@ -410,7 +410,9 @@ inductive Content where
   deriving Repr, Inhabited
 
 inductive Op where
-  | select (rs : List Res) | invert | endSel | empty | remove | unwrap
+  | select (rs : List Res)
+  | selectFail      -- a select during which `Path.test()` itself raised (ill-nested input; path.py is C05/C17)
+  | invert | endSel | empty | remove | unwrap
   | wrap (tag : QName) (attrs : AttrList)
   | replace (c : Content) | before (c : Content) | after (c : Content)
   | prepend (c : Content) | append (c : Content)
@@ -439,6 +441,7 @@ def content (b : Bufs) : Content → List MEv
     composition; see the driver for the chains in which laziness is observable) -/
 def applyOp (b : Bufs) : Op → MStream → Option (MStream × Bufs)
   | .select rs, s => (select rs s).map (·, b)
+  | .selectFail, _ => none
   | .invert, s => some (invert s, b)
   | .endSel, s => some (endSel s, b)
   | .empty, s => some (empty s, b)
